@@ -450,7 +450,7 @@ func runC13(ctx *Ctx) {
 	def := c13args{amf: amfs[0], ran: rans[0], psi: psis[0], nas: pattern(2, nasLens[0]), ip: ips[0], gnbID: []byte{0, 1, 2}, gnbBits: 24, name: "open5gs", plmn: plmns[0]}
 	r.Rule = fmt.Sprintf("14 build-and-encode wrappers of tglib (+1 variant) and 50 builders of ngapTestpacket (the two empty stubs excluded): for each, the default argument vector and every vector with one argument moved through its alphabet "+
 		"(AMF-UE-NGAP-ID %v, RAN-UE-NGAP-ID %v, PDU session id %v, IPv4 %v, NAS-PDU lengths (%d values), gNB id bit lengths 22..32, names, PLMN announced by a preceding NG Setup build (history of depth 2) from %d PLMNs) plus all pairs for the wrappers; "+
-		"out-of-range identifiers {-1, 2^40 | 2^32 | 256} must be refused; oracle: encoding decoded by the independent reference decoder and by the library (trees equal), class/procedure code (typed from TS 38.413 9.4.7), carried ids/NAS-PDU/PSI/gNB id/name/GTP address/PLMN == arguments, mandatory IEs and criticalities of the emulator's 7 message types; distinct = distinct (entry point, argument vector); non-trivial = non-default vector", amfs, rans, psis, ips, len(nasLens), len(plmns))
+		"each PLMN also announced through one NG Setup entry point only (library builder, then every wrapper; wrapper, then every library builder); out-of-range identifiers {-1, 2^40 | 2^32 | 256} must be refused; oracle: encoding decoded by the independent reference decoder and by the library (trees equal), class/procedure code (typed from TS 38.413 9.4.7), carried ids/NAS-PDU/PSI/gNB id/name/GTP address/PLMN == arguments, mandatory IEs and criticalities of the emulator's 7 message types; distinct = distinct (entry point, argument vector); non-trivial = non-default vector", amfs, rans, psis, ips, len(nasLens), len(plmns))
 	r.Assume("procedure codes, IE ids and criticalities in c13.go are typed from TS 38.413 (9.2, 9.4.7) from the author's reading", "package-level PLMN state of ngapTestpacket makes the sweep sequential")
 	l := r.Local()
 	builders := c13builders()
@@ -588,6 +588,33 @@ func runC13(ctx *Ctx) {
 					tp.BuildNGSetupRequest(plmn)
 				}
 			}
+		}
+	}
+	// the two NG Setup entry points crossed with the two families: the PLMN announced ONLY through the library builder,
+	// then every wrapper; announced ONLY through the wrapper, then every library builder (each PLMN differs from the one
+	// announced before, and every message has been built before under another PLMN)
+	for i := len(plmns) - 1; i >= 0; i-- {
+		base := def
+		base.plmn = plmns[i]
+		tp.BuildNGSetupRequest(base.plmn)
+		for _, w := range wrappers[1:] {
+			run(w.name, w.class, w.msg, w.proc, w.uses, w.call, variant{"default", base, ""}, fmt.Sprintf("[NGSetup plmn=%x through the library builder only] ", base.plmn))
+		}
+	}
+	for _, plmn := range plmns {
+		base := def
+		base.plmn = plmn
+		if _, err := tglib.GetNGSetupRequest(base.gnbID, plmn, base.gnbBits, base.name); err != nil {
+			r.Violate("wrapper/GetNGSetupRequest/refused", fmt.Sprintf("plmn=%x", plmn), err.Error(), nil)
+			continue
+		}
+		for _, bd := range builders {
+			bd := bd
+			if bd.name == "BuildNGSetupRequest" {
+				continue
+			}
+			call := func(a c13args) ([]byte, error) { return ngap.Encoder(bd.build(a)) }
+			run(bd.name, bd.class, bd.msg, bd.proc, bd.uses, call, variant{"default", base, ""}, fmt.Sprintf("[NGSetup plmn=%x through the wrapper only] ", plmn))
 		}
 	}
 	// NG Setup: gNB id lengths 22..32 (all) x names x PLMNs
